@@ -113,6 +113,11 @@ let run_leaf toks =
   | ["asp210"; stop; p; low] -> (match addSievingPrime210 (z stop) (z p) (z low) with Some (m, w) -> pr m ^ " " ^ pr w | None -> "none")
   | ["geom"; l1; kb; a; b] -> let g = initAlgorithms (z l1) (z kb) (z a) (z b) in
       pr g.a_segLow ^ " " ^ pr g.a_segHigh ^ " " ^ pr g.a_sieveSize ^ " " ^ pr g.a_maxSmall ^ " " ^ pr g.a_maxMedium
+  | ["segs"; l1; kb; a; b] ->
+      (match segments (nat_of_int 5001) (z l1) (z kb) (z a) (z b) with
+       | None -> "fuel"
+       | Some l -> let n = List.length l in
+         String.concat "" (List.mapi (fun i sg -> if i < 40 then pr sg.s_low ^ " " ^ pr sg.s_high ^ " " ^ pr sg.s_bytes ^ " | " else "") l) ^ "n=" ^ string_of_int n)
   | ["gss"; user; l1; l2; l3; s1; s2; s3] -> pr (get_sieve_size (z user) { c_l1 = z l1; c_l2 = z l2; c_l3 = z l3; c_l1s = z s1; c_l2s = z s2; c_l3s = z s3 })
   | ["nbuf"; pcu; a; b] -> let (c, s) = next_buffer (z pcu) (z a) (z b) in pr c ^ " " ^ pr s
   | ["is_prime"; x] -> if is_prime (z x) then "1" else "0"
